@@ -737,6 +737,11 @@ func mutexRLock(in *Interp, st *State, fn *ssa.Function, args []Value, retTo ssa
 	if ls.writer {
 		panic(endPath{kind: "self-deadlock", msg: "RLock of a mutex this goroutine holds for writing", pos: pos})
 	}
+	if ls.readers > 0 {
+		// sync.RWMutex forbids recursive read locking: once a writer is waiting between the
+		// two RLock calls, the second one blocks behind it and the writer behind the first
+		panic(endPath{kind: "self-deadlock", msg: "recursive RLock of " + in.lockName(st, key) + ": deadlocks as soon as a writer arrives between the two read locks", pos: pos})
+	}
 	if ls.readers == 0 {
 		st.lockOrder = append(st.lockOrder, key)
 	}
